@@ -148,6 +148,13 @@ func (d *depEngine) deps(v ssa.Value, depth int) map[string]bool {
 		switch x := v.(type) {
 		case *ssa.Call:
 			d.callDeps(x, out, depth)
+		case *ssa.Extract:
+			if call, isCall := x.Tuple.(*ssa.Call); isCall && !call.Call.IsInvoke() && isLocalHelper(d.fn, call.Call.StaticCallee()) {
+				// one result of a helper: only what that result depends on (not, say, the error it may also return)
+				d.callDepsIdx(call, x.Index, out, depth)
+			} else {
+				union(out, d.deps(x.Tuple, depth+1))
+			}
 		case *ssa.Phi:
 			for _, e := range x.Edges {
 				union(out, d.deps(e, depth+1))
@@ -195,6 +202,11 @@ func isAllocLike(v ssa.Value) bool {
 
 // callDeps: dependencies of a call's result.
 func (d *depEngine) callDeps(call *ssa.Call, out map[string]bool, depth int) {
+	d.callDepsIdx(call, -1, out, depth)
+}
+
+// callDepsIdx: dependencies of result number idx of a call (-1: of all results).
+func (d *depEngine) callDepsIdx(call *ssa.Call, idx int, out map[string]bool, depth int) {
 	o := calleeObj(call)
 	name, pkg := "", ""
 	if o != nil {
@@ -233,18 +245,22 @@ func (d *depEngine) callDeps(call *ssa.Call, out map[string]bool, depth int) {
 	// depends on whatever the helper's returned values depend on, in the caller's vocabulary
 	if cal := call.Call.StaticCallee(); !call.Call.IsInvoke() && isLocalHelper(d.fn, cal) && depHelperDepth < 2 {
 		depHelperDepth++
-		sum, ok := depHelperMemo[cal]
+		mkey := depHelperKey{cal, idx}
+		sum, ok := depHelperMemo[mkey]
 		if !ok {
 			sum = map[string]bool{}
 			hd := newDep(cal, nil)
 			for _, ret := range returnsOf(cal) {
-				for _, res := range ret.Results {
+				for i, res := range ret.Results {
+					if idx >= 0 && i != idx {
+						continue
+					}
 					for _, l := range hd.labels(res) {
 						sum[l] = true
 					}
 				}
 			}
-			depHelperMemo[cal] = sum
+			depHelperMemo[mkey] = sum
 			if os.Getenv("MPS_DEPDBG") != "" {
 				fmt.Fprintf(os.Stderr, "DEPSUM %s: %v\n", cal, sum)
 			}
@@ -297,7 +313,12 @@ func (d *depEngine) callDeps(call *ssa.Call, out map[string]bool, depth int) {
 }
 
 var depHelperDepth int
-var depHelperMemo = map[*ssa.Function]map[string]bool{}
+type depHelperKey struct {
+	fn  *ssa.Function
+	idx int
+}
+
+var depHelperMemo = map[depHelperKey]map[string]bool{}
 
 // effects: what flows into object obj through stores and calls that can precede d.at.
 func (d *depEngine) effects(obj ssa.Value, out map[string]bool, depth int) {
@@ -401,8 +422,42 @@ func readOnlyCallee(pkg, name string) bool {
 // writesArgs: functions known to write into a non-receiver argument.
 func writesArgs(pkg, name string) bool {
 	switch name {
-	case "Read", "ReadFull", "DeriveKey", "FillBytes", "Unmarshal", "Decode", "copy", "Parallelize", "Search":
+	case "Read", "ReadFull", "DeriveKey", "FillBytes", "Unmarshal", "Decode", "copy", "Parallelize", "Search", "XORBytes", "ConstantTimeCopy":
 		return true
 	}
 	return strings.HasPrefix(name, "PutUint")
+}
+
+// depLabelsUp: may-depend labels of v in the vocabulary of the function whose helper region v's function belongs to.
+func depLabelsUp(v ssa.Value) []string {
+	owner := valueParent(v)
+	if owner == nil {
+		return nil
+	}
+	ls := newDep(owner, nil).labels(v)
+	for i, p := range owner.Params {
+		a, bound := helperArg[p]
+		pl := paramLabel(owner, i)
+		if !bound || pl == "" || pl == "recv" || valueParent(a) == nil || valueParent(a) == owner {
+			continue
+		}
+		to := depLabelsUp(a)
+		var next []string
+		for _, l := range ls {
+			if !mentionsToken(l, pl) || len(to) == 0 {
+				next = append(next, l)
+				continue
+			}
+			for _, t := range to {
+				if l == pl {
+					next = append(next, t)
+				} else {
+					next = append(next, replaceToken(l, pl, t))
+				}
+			}
+		}
+		ls = next
+	}
+	sort.Strings(ls)
+	return ls
 }
